@@ -6,6 +6,7 @@ from typing import Any
 
 from jinja2 import Environment
 
+from xsdata.codegen.exceptions import CodegenError
 from xsdata.codegen.models import Attr, AttrType, Class
 from xsdata.codegen.utils import ClassUtils
 from xsdata.formats.converter import converter
@@ -90,6 +91,7 @@ class Filters:
         self.constant_safe_prefix: str = config.conventions.constant_name.safe_prefix
         self.package_safe_prefix: str = config.conventions.package_name.safe_prefix
         self.module_safe_prefix: str = config.conventions.module_name.safe_prefix
+        self.validate_safe_prefixes()
         self.docstring_style: DocstringStyle = config.output.docstring_style
         self.max_line_length: int = config.output.max_line_length
         self.generic_collections: bool = config.output.generic_collections
@@ -364,6 +366,27 @@ class Filters:
             return datatype.type.__name__
 
         return self.class_name(attr_type.alias or attr_type.name)
+
+    def validate_safe_prefixes(self) -> None:
+        """Make sure every safe prefix can start a name.
+
+        Raises:
+            CodegenError: If the first alphanumeric character
+                of a prefix is not an ascii letter.
+        """
+        for prefix in (
+            self.class_safe_prefix,
+            self.field_safe_prefix,
+            self.constant_safe_prefix,
+            self.package_safe_prefix,
+            self.module_safe_prefix,
+        ):
+            slug = text.alnum(prefix)
+            if not slug or not slug[0].isalpha():
+                raise CodegenError(
+                    "Invalid safe prefix, the first alphanumeric must be a letter",
+                    prefix=prefix,
+                )
 
     def safe_name(
         self,
